@@ -744,6 +744,13 @@ Inv_C13_QueueSound == C13_QueueSound(st)
 Inv_C13_QueueComplete == C13_QueueComplete(st, gh)
 Inv_C13_NoHalt == C13_NoHalt(ev)
 
+(* ghost clauses on every explored transition (under VIEW = st the state
+   invariants over gh are evaluated for the first path into a state only) *)
+Act_Gh_C06_Budget == [][C06_Budget(st', gh')]_vars
+Act_Gh_C06_Funded == [][C06_Funded(st', gh')]_vars
+Act_Gh_C06_ProRata == [][C06_ProRata(st', gh')]_vars
+Act_Gh_C13_QueueComplete == [][C13_QueueComplete(st', gh')]_vars
+
 Act_C05_UnstakeNeverFails == [][C05_UnstakeNeverFails(st, ev')]_vars
 (* the same modulo known finding F2 (known_findings.json): the collector cannot
    pay the floor-rounded rewards.  Any other cause of a failing unstake is
